@@ -10,3 +10,15 @@ mod migration;
 mod recover;
 pub mod service;
 mod sync;
+
+// Verification hook (add-only, compiled only with `--cfg undermoon_verif`): re-exports the private coordinator
+// modules so that the /verif harness can build the real synchronizers / detectors from their parts and drive
+// single rounds step by step over a fake network.
+#[cfg(undermoon_verif)]
+pub mod verif {
+    pub use super::core::*;
+    pub use super::detector::*;
+    pub use super::migration::*;
+    pub use super::recover::*;
+    pub use super::sync::*;
+}
